@@ -32,7 +32,8 @@ TRUSTED_BASE = [
     'translator tools/translate/tr_update.py (ast, fail-closed): order of raise / astype / attribute binding / in-place write / call events '
     'of every method on the update path, and the hook resolution read from the live classes',
     'correspondence harness tools/props/C16.py: construction of the batches, extraction of the batch facts (shapes, dtype classes, '
-    'extreme values), mapping of exception classes to an enum, float.hex export, mock of psutil.virtual_memory for the memory check',
+    'extreme values), mapping of exception classes to an enum, float.hex export, mock of psutil.virtual_memory for the memory check, '
+    'sharing of the compiled numba LUT function between objects with the same class set (pure function; saves 0.35 s per object)',
     'modelled, not verified: Python attribute / exception semantics (dict(self.__dict__) snapshot, clear + update restore), numpy in-place '
     'operators raise before writing when shapes or casting do not fit, numba raises at dispatch (typing) before the kernel runs',
 ]
@@ -709,7 +710,7 @@ class UpdKind(Kind):
                 yield self.case(fam, unb, history_with_insertions(fam, vseed, T, W, [], {0: ['good', 'tlen']}))
                 yield self.case(fam, cfg, history_with_insertions(fam, vseed, T, W, goods[:2], {0: ['tlen', 'tlen_short'], 1: ['tlen'], 2: ['traces_3d']}))
             # --- random structure
-            nrand = (2 if heavy else 6) if quick else (12 if heavy else 40)
+            nrand = (2 if heavy else 6) if quick else (60 if heavy else 200)
             for _ in range(nrand):
                 ng = rng.randint(1, 4)
                 gs = [rng.randint(2, 12) for _ in range(ng)]
@@ -843,7 +844,7 @@ class RunKind(UpdKind):
                 yield self.case(fam, cfg, self.history(rng, vseed, T, W, [(nb, pos, k)]))
             # two refused runs around a good one, then process calls
             yield self.case(fam, cfg, self.history(rng, vseed, T, W, [(3, 1, 'user'), (2, None, None), (3, 2, 'tlen_short'), (2, 0, 'user_pre')]))
-            nrand = (1 if heavy else 3) if quick else (8 if heavy else 25)
+            nrand = (1 if heavy else 3) if quick else (40 if heavy else 120)
             for _ in range(nrand):
                 runs = []
                 for _ in range(rng.randint(1, 4)):
